@@ -365,7 +365,7 @@ func (c *Ctx) TLC(o TLCOpt) (*TLCResult, error) {
 	}
 	emit := filepath.Join(dir, "emit.ndjson")
 	args := []string{
-		"-XX:+UseParallelGC", "-Xss512m", "-Xmx" + o.Heap, "-Dverif.emit=" + emit, "-Dverif.dir=" + dir,
+		"-XX:+UseParallelGC", "-Xss512m", "-Dfile.encoding=UTF-8", "-Xmx" + o.Heap, "-Dverif.emit=" + emit, "-Dverif.dir=" + dir,
 		"-cp", tlaJar + ":" + commJar + ":" + overrides, "tlc2.TLC",
 		"-config", o.Spec + ".cfg", "-workers", strconv.Itoa(o.Workers), "-metadir", filepath.Join(dir, "meta"), "-nowarning",
 	}
